@@ -2,6 +2,7 @@ import DracoModel.Spec
 import DracoModel.SeqDecoder
 import DracoModel.SeqEncoder
 import DracoProofs.SeqGeometry
+import DracoProofs.SeqRows
 /-
   C01 — encode/decode round trip, composed and machine checked for the SEQUENTIAL methods
   (`POINT_CLOUD_SEQUENTIAL_ENCODING`, `MESH_SEQUENTIAL_ENCODING`), against the decoder model
@@ -544,5 +545,33 @@ example : ∃ r st, decodeGeometry {} { rest :=
   obtain ⟨r, st, h1, h2, h3, _⟩ := seq_counts sampleChoices samplePC none sampleOpts _ samplePC_ok
     (fun m h => by cases h) samplePC_encodes []
   exact ⟨r, st, h1, h2, h3⟩
+
+/-- **C20 / C01 (order)**: the sequential methods keep point order and face order — the faces come
+    back as they were, and for every attribute `j` the decoded values are, point by point in the
+    order `0 … numPoints-1`, the value rows of the input's points (`pointRows`: `GetValue(mapped_index(p))`)
+    with `transformRow` applied (identity / dequantize∘quantize / octahedral decode∘encode); the decoded
+    attribute has the identity point map and keeps its unique id. -/
+theorem seq_order_preserved (ch : Choices) (g : Geometry) (md : Option GeometryMetadata)
+    (opts : EncOpts) (bs : Bytes) (hok : GeomOK g opts) (hmd : ∀ m, md = some m → m.WF')
+    (henc : encodeGeometry ch g md opts = some bs) (extra : Bytes) :
+    ∃ r st, decodeGeometry {} { rest := bs ++ extra } = (some r, st) ∧
+      r.geometry.faces = (if g.isMesh then g.faces else []) ∧
+      ∀ j a, g.atts[j]? = some a → ∃ d, r.geometry.atts[j]? = some d ∧
+        d.uniqueId = a.uniqueId ∧ d.map = none ∧ d.numValues = g.numPoints ∧
+        d.values = ((pointRows a g.numPoints).map (transformRow opts j a)).flatten := by
+  obtain ⟨st, h1, _⟩ := seq_roundtrip ch g md opts bs hok hmd henc extra
+  refine ⟨_, st, h1, rfl, fun j a hj => ?_⟩
+  have ha := hok.atts j a hj
+  refine ⟨_, expected_att g opts j a hj, rfl, rfl, rfl, ?_⟩
+  exact expectedAttributeOf_rowwise opts g.numPoints j a (ha.numValues_pos hok.points).2.1 ha.explicit
+
+/-- non-vacuity: the unquantized float attribute of `samplePC` (explicit point map 1,0,1) comes back as
+    the rows of points 0, 1, 2 -/
+example : ∃ r st, decodeGeometry {} { rest := sampleStream ++ [] } = (some r, st) ∧
+    ∃ d, r.geometry.atts[0]? = some d ∧ d.values = [5, 6, 7, 8, 1, 2, 3, 4, 5, 6, 7, 8] := by
+  obtain ⟨r, st, h1, _, h3⟩ := seq_order_preserved sampleChoices samplePC none sampleOpts sampleStream
+    samplePC_ok (fun m h => by cases h) samplePC_encodes' []
+  obtain ⟨d, hd, _, _, _, hv⟩ := h3 0 _ rfl
+  exact ⟨r, st, h1, d, hd, by rw [hv]; decide +kernel⟩
 
 end Draco.C01
